@@ -154,6 +154,50 @@ func runC18(o *out, r *rng, thorough bool, replay string) {
 		o.count("cache-flood", fmt.Sprint(capd), true)
 	}
 
+	// re-admission after eviction: a chain already held as wanted is admitted again after its shorter prefixes were
+	// evicted from the discovered cache -- "after a chain is admitted, every prefix of it can be retrieved by key"
+	for capd := 1; capd <= 4; capd++ {
+		for _, capw := range []int{3, 8} {
+			_, clk := clock.WithMockClock(ctx)
+			px := chainexchange.VerifNew(func() gpbft.InstanceProgress { return gpbft.InstanceProgress{Instant: gpbft.Instant{ID: 5}} }, capw, capd, 10, 8*time.Second, clk, false)
+			c := []int{1, 2, 3, 7}
+			var ops []string
+			px.VerifCacheAsDiscovered(ctx, chainexchange.Message{Instance: 5, Chain: cxChain(c)})
+			ops = append(ops, fmt.Sprintf("CDiscovered 5 %s", cxTerm(c)))
+			_, ok := px.GetChainByInstance(ctx, 5, cxChain(c).Key())
+			exp := "None"
+			if ok {
+				exp = "(Some " + cxTerm(c) + ")"
+			}
+			ops = append(ops, fmt.Sprintf("CLookup 5 %s %s", cxTerm(c), exp))
+			for f := 0; f < capd+3; f++ {
+				u := []int{300 + f, 400 + f}
+				px.VerifCacheAsDiscovered(ctx, chainexchange.Message{Instance: 5, Chain: cxChain(u)})
+				ops = append(ops, fmt.Sprintf("CDiscovered 5 %s", cxTerm(u)))
+			}
+			px.VerifCacheAsDiscovered(ctx, chainexchange.Message{Instance: 5, Chain: cxChain(c)}) // admitted again
+			ops = append(ops, fmt.Sprintf("CDiscovered 5 %s", cxTerm(c)))
+			// the prefixes that can still be held right after this admission: the discovered cache keeps the capd most
+			// recently inserted ones (shortest prefixes are inserted last)
+			for l := 2; l <= len(c); l++ {
+				pre := c[:l]
+				_, ok := px.GetChainByInstance(ctx, 5, cxChain(pre).Key())
+				exp := "None"
+				if ok {
+					exp = "(Some " + cxTerm(pre) + ")"
+				}
+				ops = append(ops, fmt.Sprintf("CLookup 5 %s %s", cxTerm(pre), exp))
+				if !ok && l <= capd && l < len(c) { // the capd shortest prefixes (base first) are the last ones inserted
+					o.violate("after a chain is admitted, that chain and every prefix of it can be retrieved by key (up to the configured capacity)", "cx-prefix-lost-after-readmission",
+						map[string]any{"cap_discovered": capd, "cap_wanted": capw, "scenario": "admit C; lookup C; flood; admit C again; lookup prefixes"}, fmt.Sprint(pre))
+					break
+				}
+			}
+			o.coqCase(fmt.Sprintf("readmission capd=%d capw=%d", capd, capw), fmt.Sprintf("cache_history_ok %d%%nat %d%%nat %s", capw, capd, cList(ops)))
+			o.count("cache-readmission", fmt.Sprint(capd, capw), true)
+		}
+	}
+
 	// ---------- admission ----------
 	na := 200
 	if thorough {
